@@ -88,6 +88,24 @@ func propLabels(c *Contract, id string) (bool, map[string]bool) {
 	return false, nil
 }
 
+// labelServes: a filter lists the labels (or kind:<kind>) that serve the property, or - when every
+// entry starts with '-' - the labels that do not.
+func labelServes(ls map[string]bool, label, kind string) bool {
+	if ls == nil {
+		return true
+	}
+	if ls["-"+label] || ls["-kind:"+kind] {
+		return false
+	}
+	incl := false
+	for l := range ls {
+		if !strings.HasPrefix(l, "-") {
+			incl = true
+		}
+	}
+	return !incl || ls[label] || ls["kind:"+kind]
+}
+
 type checkRun struct {
 	id       string
 	tier     string
@@ -199,7 +217,7 @@ func runProperty(id, tier string, timeout int, overlay map[string][]byte, only s
 				// only the clauses that serve this property are discharged
 				kept := r.Obls[:0]
 				for _, o := range r.Obls {
-					if o.Kind == "cover" || labels[o.Label] || labels["kind:"+o.Kind] {
+					if o.Kind == "cover" || labelServes(labels, o.Label, o.Kind) {
 						kept = append(kept, o)
 					}
 				}
@@ -216,7 +234,7 @@ func runProperty(id, tier string, timeout int, overlay map[string][]byte, only s
 	}
 	Discharge(solver, run.results, nil)
 	for _, g := range GroupObligations(run.results) {
-		if ls := run.labels[g.Func]; ls != nil && g.Kind != "cover" && !ls[g.Label] && !ls["kind:"+g.Kind] {
+		if ls := run.labels[g.Func]; ls != nil && g.Kind != "cover" && !labelServes(ls, g.Label, g.Kind) {
 			continue
 		}
 		run.groups = append(run.groups, g)
